@@ -15,7 +15,9 @@ Definition id := nat.
 Inductive ckind : Type :=
 | KArr                       (* array: children by position *)
 | KDict                      (* dictionary: children by key, kept in ascending key order *)
-| KStruct (tag : Z).         (* struct of declared type [tag]: children by field index *)
+| KStruct (tag : Z)          (* struct of declared type [tag]: children by field index *)
+| KOpt.                      (* optional: no child (nil) or one child at position 0 (the payload);
+                                an optional is transferred like any other value: its payload is copied *)
 
 Inductive tv : Type :=
 | TPrim (z : Z)
@@ -23,7 +25,7 @@ Inductive tv : Type :=
 
 Definition ckind_eqb (a b : ckind) : bool :=
   match a, b with
-  | KArr, KArr | KDict, KDict => true
+  | KArr, KArr | KDict, KDict | KOpt, KOpt => true
   | KStruct s, KStruct t => s =? t
   | _, _ => false
   end.
